@@ -41,6 +41,12 @@ CLAIMS["C04"] = {
     "design_ref": "DESIGN.md section 4, C04",
     "note": "Trusted: as C01; leading batch dimensions are handled by the harness (each last-dimension row is one operation line); Hamming/Reed-Muller inverse_encode overrides are exercised on codewords only here (their correcting behaviour is C02).",
 }
+CLAIMS["C03"] = {
+    "technique": "Lean 4: sound lower-bound checker for the minimum weight of a row span (tree recursion, proved for every generator matrix), additive cyclic shift => shift-closure from the generators, polynomial divisibility with the model of BinaryPolynomial; kernel-evaluated per catalogue instance on data regenerated from /repo; correspondence of forward() ties the word set to G",
+    "text": "Unbounded: spanMin(G) <= weight(m.G) for every non-zero message and every generator matrix; the cyclic shift is additive, so if the shift of each generator row has zero syndrome then the shift of EVERY codeword has. K obligations (8 parallel modules) for each of ~230 instances: reported code_length / code_dimension equal the shape of the published generator (and the (n,k) in the name of named standard codes); for instances with k <= 13: minimum distance >= advertised minimum_distance / delta, with a witness codeword of exactly that weight where the value is documented as exact (Hamming, Golay, repetition, SPC, Reed-Muller, enumerated cyclic codes); for cyclic and BCH instances: generator polynomial divides X^n+1, has degree n-k, every generator row is a multiple of it in the stated coefficient order (rotation / reversal found by the harness, checked by the kernel), closure under cyclic shifts; sphere-packing equality for the Hamming and Golay codes (Nat.choose, kernel-evaluated). RS-style codes are a listed finding: the kernel proves a codeword lighter than the advertised design distance.",
+    "design_ref": "DESIGN.md section 4, C03",
+    "note": "Trusted: Lean kernel + standard axioms; advertised values read through the public attributes; distance of instances with k > 13 (listed in evidence under distance_not_decided_in_lean) is decided only by the search oracle (enumeration / MacWilliams in Python), not by a theorem.",
+}
 
 NOT_YET = {}
 
